@@ -105,19 +105,27 @@ Fixpoint write_sorted (bs : N) (ft : id -> option N) (prev : id) (ids : list id)
 Definition finish_blocks (st : wstate) : list (list (N * N)) :=
   let '(done, cur, _) := st in match cur with [] => done | _ => done ++ [cur] end.
 
+(* GetAllDocuments: the LIDs of the all-token, newest ID first *)
+Definition all_lids (a : active) : list nat := get_lids (a_ids a) (tok_lids a tok_all).
+
+(* sortSeqIDs: len(mids) entries; a LID not listed by the all-token leaves a zero ID at the end *)
+Definition sealed_ids (a : active) : list id :=
+  sys_id :: map (lid_id a) (all_lids a) ++ repeat (0, 0)%N (length (a_ids a) - 1 - length (all_lids a)).
+
+(* positions and docs blocks of the sealed form: the active ones (SkipSortDocs) or the sorted docs *)
+Definition sealed_docs (cfg : sealcfg) (a : active) : list (id * pos) * list (list (N * N)) :=
+  if sc_skipsort cfg then (a_posm a, a_blocks a)
+  else let r := write_sorted (sc_bs cfg) (fetch a) (0, 0)%N (tl (sealed_ids a)) ([], [], 0%N) in
+       (snd r, finish_blocks (fst r)).
+
 (* frac.Seal: writeSealedFraction *)
 Definition seal (cfg : sealcfg) (a : active) : sealed :=
-  let alls := get_lids (a_ids a) (tok_lids a tok_all) in                 (* GetAllDocuments *)
-  let ids := sys_id :: map (lid_id a) alls
-             ++ repeat (0, 0)%N (length (a_ids a) - 1 - length alls) in  (* sortSeqIDs *)
-  let '(posm, blocks) :=
-      if sc_skipsort cfg then (a_posm a, a_blocks a)
-      else let '(st, m) := write_sorted (sc_bs cfg) (fetch a) (0, 0)%N (tl ids) ([], [], 0%N) in
-           (m, finish_blocks st) in
+  let ids := sealed_ids a in
+  let docs := sealed_docs cfg a in
   mkSealed ids
-           (map (fun i => lookup_pos i posm) ids)                        (* fillPos *)
-           (map (fun p => (fst p, map (new_lid alls) (get_lids (a_ids a) (snd p)))) (a_tok a))
-           blocks (a_total a) (a_from a) (a_to a).
+           (map (fun i => lookup_pos i (fst docs)) ids)                   (* fillPos *)
+           (map (fun p => (fst p, map (new_lid (all_lids a)) (get_lids (a_ids a) (snd p)))) (a_tok a))
+           (snd docs) (a_total a) (a_from a) (a_to a).
 
 (* loading a sealed fraction from its files: the tables as they were written (identity in the
    model; that the loader reproduces them is what the correspondence run compares) *)
